@@ -142,7 +142,7 @@ func FieldCase(r *rand.Rand, name string, o FieldOpts) *Case {
 			needIgnoreCase = true
 		case "nested", "nestedptr":
 			st, tt := leafPair()
-			depth := 1 + r.Intn(2)
+			depth := 1 + r.Intn(4)
 			inner := Struct(F("Leaf", st), F("Other", Basic("int")))
 			cur := Named(decl(src, "SIn", inner))
 			path := []string{"Leaf"}
@@ -456,6 +456,10 @@ func negativeFieldCasesLocal() []*Case {
 			"type In struct{ A int; H Hold }\ntype Hold struct{ B int }\ntype Out struct{ A int; B int }\n", "// goverter:converter\n// goverter:ignoreMissing\ntype Converter interface {\n\t// goverter:autoMap H\n\tConvertPtr(source *In) *Out\n\tConvertList(source []In) []Out\n}\n"),
 		mk("overlap_matchignorecase", "matchIgnoreCase on the pointer variant while the struct variant is what gets used",
 			"type In struct{ A int; BVAL int }\ntype Out struct{ A int; Bval int }\n", "// goverter:converter\n// goverter:ignoreMissing\ntype Converter interface {\n\t// goverter:matchIgnoreCase\n\tConvertPtr(source *In) *Out\n\tConvertList(source []In) []Out\n}\n"),
+		mk("ignore_wrong_case", "ignore names a target field in the wrong case (settings are case-sensitive also under matchIgnoreCase)",
+			"type In struct{ A int; Secret string }\ntype Out struct{ A int; Secret string }\n", "// goverter:converter\ntype Converter interface {\n\t// goverter:matchIgnoreCase\n\t// goverter:ignore secret\n\tConvert(source In) Out\n}\n"),
+		mk("map_wrong_case", "map names a target field in the wrong case under matchIgnoreCase",
+			"type In struct{ A int; Nick string; DisplayName string }\ntype Out struct{ A int; DisplayName string }\n", "// goverter:converter\n// goverter:matchIgnoreCase\ntype Converter interface {\n\t// goverter:map Nick displayname\n\tConvert(source In) Out\n}\n"),
 		mk("ptrptr_target", "field settings on a method whose target is a pointer to a pointer to a struct",
 			"type In struct{ A int; S string }\ntype Out struct{ A int; S string }\n", "// goverter:converter\ntype Converter interface {\n\t// goverter:ignore S\n\tConvert(source In) **Out\n}\n"),
 		mk("ptrptr_target_unknown", "unknown field in settings on a **struct target",
